@@ -225,7 +225,17 @@ func newWorldTrace() *Trace { return &Trace{PhaseStart: map[string]int{}} }
 
 func runCaseInto(c *Case, tr *Trace) {
 	w := &World{c: c, net: NewNet(), tr: tr, quit: make(chan struct{}), yieldOcc: map[string]int{}}
+	before := heapAllocBytes()
 	w.run()
+	tr.AllocBytes = heapAllocBytes() - before
+}
+
+var allocSample = []metrics.Sample{{Name: "/gc/heap/allocs:bytes"}}
+
+// heapAllocBytes: cumulative bytes allocated on the heap by this process.
+func heapAllocBytes() uint64 {
+	metrics.Read(allocSample)
+	return allocSample[0].Value.Uint64()
 }
 
 func (w *World) run() {
